@@ -90,7 +90,7 @@ CLAIMED = {
              'searched in grades (1e-6,1e-9,1e-12) and replayed on the float code.',
         design_ref='DESIGN.md 4 C07',
         note=TRUST + 'Not claimed: IEEE rounding (e.g. int((x-xmin)/dx) one ulp inside a cell edge). Bounds: degrees 1-5 (thorough '
-                     '1-10), listed rational knot families, cells <= 8, 2-D degrees <= 5.'),
+                     '1-10), listed rational knot families, cells <= 8, 2-D degrees <= 5; additionally symbolic break points through the kernels: all of them for degrees 1-2 (and degree 3 with <= 2 cells, thorough), one interior break point for degree 3 (and 4 clamped, thorough).'),
     'C08': dict(
         category='proof',
         technique='concolic symbolic execution of the real interpolator classes on exact z3 Real data; LAPACK/SuperLU by contract; z3 linear/polynomial queries',
@@ -110,7 +110,7 @@ CLAIMED = {
              'in Q); weights sum to the domain length; equal on uniform periodic spaces; stored basis integrals equal the true '
              'integrals (per periodic basis function on periodic spaces). Counter-models replayed on the float code.',
         design_ref='DESIGN.md 4 C09',
-        note=TRUST + 'Bounds: degrees 1-5 (thorough 1-6), listed knot families, cells <= 8, uniform-cubic fast path. Solver contracts as C08.'),
+        note=TRUST + 'Bounds: degrees 1-5 (thorough 1-6), listed knot families, cells <= 8, uniform-cubic fast path; stored basis integrals additionally for ALL break points of degree 1-2 spaces (2-3 cells) and one symbolic break point of cubic spaces. Solver contracts as C08.'),
     'C10': dict(
         category='proof',
         technique='concolic symbolic execution of the real FluxSurfaceAdvection with the whole surface and the time step symbolic; per-path rational-function identities in dt decided by z3 (nlsat)',
